@@ -4,7 +4,8 @@ C02 / C03 core: the round-to-odd intermediate (gmputils.py).
   GmpEval            TRUSTED  the MPFR contract (DESIGN section 8 item 5)
   FloatToMpfr        TRUSTED  Float -> mpfr conversion through a hex string is exact
   RoundOdd           _round_odd turns (RTZ_P value, inexact) into the round-to-odd value (T1)
-  L5_reround         Lemma: re-rounding a round-to-odd value that has >= 2 extra digits == rounding the real
+  L5_core            Lemma: L5 over an abstract grid spacing that is a multiple of 4 (chained proof steps)
+  L5_reround         Lemma: re-rounding a round-to-odd value that has >= 2 extra digits == rounding the real (rnd_at form)
   L5_scale           Lemma: the fine representation of a real rounds the same at every scale
   MpfrCall           mpfr_call: precision choice prec+2 / two-pass down to n-1 (T2), result = RTO of the exact value
 """
@@ -193,40 +194,6 @@ class L5_reround(Lemma):
             'c': X[1] == Y[1],
             'inexact': X[2] == Y[2],
             'carry': X[3] == Y[3],
-        }
-
-
-class L5_scale(Lemma):
-    """
-    The fine representation is independent of the scale: for K <= E the digits/sticky at E are determined by
-    those at K (floor of a real: dig_E = dig_K div 2^(E-K), stk_E = stk_K or dig_K mod 2^(E-K) != 0), and
-    rounding (s, K-1, 2*dig_K + stk_K) at any n >= E equals rounding (s, E-1, 2*dig_E + stk_E) at n.
-    So "rounding the real y" is well defined by any scale at or below the rounding position.
-    """
-    params = {'s': 'bool', 'E': 'int', 'K': 'int', 'digK': 'int', 'stkK': 'bool', 'p': 'int | None', 'n': 'int',
-              'rm': 'RoundingMode', 'wE': 'RealFloat', 'wK': 'RealFloat'}
-    properties = ['C02', 'C03']
-    split = ['rm']
-
-    def pre(self, s, E, K, digK, stkK, p, n, rm, wE, wK):
-        d = E - K
-        return {
-            'dig': digK >= 0,
-            'scales': K <= E and n >= E,
-            'p': p is None or p >= 1,
-            'wK': wK._s == s and wK._exp == K - 1 and wK._c == fine_c(digK, stkK),
-            'wE': wE._s == s and wE._exp == E - 1
-                  and wE._c == fine_c(fdiv(digK, pow2(d)), stkK or fmod(digK, pow2(d)) != 0),
-        }
-
-    def post(self, s, E, K, digK, stkK, p, n, rm, wE, wK):
-        A = rnd_at(wK, p, n, rm)
-        B = rnd_at(wE, p, n, rm)
-        return {
-            'exp': A[0] == B[0],
-            'c': A[1] == B[1],
-            'inexact': A[2] == B[2],
-            'carry': A[3] == B[3],
         }
 
 
